@@ -11,6 +11,8 @@ import Xsel.WF
 import Xsel.Json
 import Xsel.Html
 import Xsel.Xml
+import Xsel.Unmarshal
+import Xsel.Cli
 
 namespace Xsel
 
@@ -279,21 +281,114 @@ def decXTok : Sexp → Option Xml.Tok
 
 mutual
 partial def decXNode : Sexp → Option Xml.XNode
-  | .list (.atom "xtext" :: segs) => do pure (.text (← segs.mapM decStrS))
+  | .list (.atom "xtext" :: segs) => do
+    let ss ← segs.mapM (fun s => match s with
+      | .list [.atom "c", x] => do pure (true, ← decStrS x)
+      | .list [.atom "p", x] => do pure (false, ← decStrS x)
+      | _ => none)
+    pure (.text ss)
   | .list [.atom "xcomment", s] => do pure (.comment (← decStrS s))
   | .list [.atom "xpi", t, d] => do pure (.pi (← decStrS t) (← decStrS d))
-  | .list (.atom "xelem" :: p :: l :: .list (.atom "decls" :: ds) :: .list (.atom "attrs" :: as) :: kids) => do
+  | .list [.atom "xdecl", d] => do pure (.xmldecl (← decStrS d))
+  | .list [.atom "xdoctype"] => some .doctype
+  | .list [.atom "xws", s] => do pure (.ws (← decStrS s))
+  | .list (.atom "xelem" :: p :: l :: .list (.atom "decls" :: ds) :: .list (.atom "attrs" :: as) :: .atom af :: kids) => do
     let decls ← ds.mapM (fun s => match s with
       | .list [a, b] => do pure (← decStrS a, ← decStrS b)
       | _ => none)
     let attrs ← as.mapM (fun s => match s with
       | .list [a, b, c] => do pure (← decPfx a, ← decStrS b, ← decStrS c)
       | _ => none)
-    pure (.elem (← decPfx p) (← decStrS l) decls attrs (← decXNodes kids))
+    pure (.elem (← decPfx p) (← decStrS l) decls attrs (af == "1") (← decXNodes kids))
   | _ => none
 partial def decXNodes : List Sexp → Option Xml.XNodes
   | [] => some .nil
   | t :: ts => do pure (.cons (← decXNode t) (← decXNodes ts))
+end
+
+mutual
+partial def decGoTy : Sexp → Option Unm.GoTy
+  | .list [.atom "ts", .atom "str"] => some (.scalar .str)
+  | .list [.atom "ts", .atom "bool"] => some (.scalar .bool)
+  | .list [.atom "ti", .atom b] => do pure (.scalar (.int (← decNat b)))
+  | .list [.atom "tu", .atom b] => do pure (.scalar (.uint (← decNat b)))
+  | .list [.atom "tf", .atom b] => do pure (.scalar (.float (← decNat b)))
+  | .list [.atom "tp", t] => do pure (.ptr (← decGoTy t))
+  | .list [.atom "tl", t] => do pure (.slice (← decGoTy t))
+  | .list (.atom "tst" :: fs) => do pure (.struct (← decGoFields fs))
+  | .list [.atom "to"] => some .other
+  | _ => none
+partial def decGoFields : List Sexp → Option Unm.GoFields
+  | [] => some .nil
+  | .list [.atom "fd", n, .atom ex, tag, .atom bad, t] :: rest => do
+    let tg ← match tag with
+      | .atom "-" => some none
+      | e => (decExpr e).map some
+    pure (.cons (← decStrS n) (ex == "1") tg (bad == "1") (← decGoTy t) (← decGoFields rest))
+  | _ => none
+end
+
+mutual
+partial def decGoVal : Sexp → Option Unm.GoVal
+  | .list [.atom "vs", s] => do pure (.str (← decStrS s))
+  | .list [.atom "vb", .atom b] => some (.bool (b == "1"))
+  | .list [.atom "vi", .atom i] => do pure (.int (← i.toInt?))
+  | .list [.atom "vf", .atom b] => do pure (.float (← decBits b))
+  | .list [.atom "vnil"] => some .nilPtr
+  | .list [.atom "vp", v] => do pure (.ptr (← decGoVal v))
+  | .list (.atom "vl" :: vs) => do pure (.slice (← decGoVals vs))
+  | .list (.atom "vst" :: vs) => do pure (.struct (← decGoVals vs))
+  | .list [.atom "vo"] => some .opaque
+  | _ => none
+partial def decGoVals : List Sexp → Option Unm.GoVals
+  | [] => some .nil
+  | v :: vs => do pure (.cons (← decGoVal v) (← decGoVals vs))
+end
+
+def decTarget : Sexp → Option Unm.Target
+  | .list [.atom "tgt", .atom "nil"] => some .nilIface
+  | .list [.atom "tgt", .atom k, na, t, v] => do
+    let nilAt ← match na with
+      | .atom "-" => some none
+      | .atom n => (decNat n).map some
+      | _ => none
+    pure (.val (← decNat k) nilAt (← decGoTy t) (← decGoVal v))
+  | _ => none
+
+mutual
+partial def encGoVal : Unm.GoVal → String
+  | .str s => s!"(vs {encStr s})"
+  | .bool b => s!"(vb {if b then 1 else 0})"
+  | .int i => s!"(vi {i})"
+  | .float n => s!"(vf {Num.bitsHex n})"
+  | .nilPtr => "(vnil)"
+  | .ptr v => s!"(vp {encGoVal v})"
+  | .slice vs => "(vl" ++ encGoVals vs ++ ")"
+  | .struct vs => "(vst" ++ encGoVals vs ++ ")"
+  | .opaque => "(vo)"
+partial def encGoVals : Unm.GoVals → String
+  | .nil => ""
+  | .cons v vs => " " ++ encGoVal v ++ encGoVals vs
+end
+
+def decFileResult : Sexp → Option Cli.FileResult
+  | .list [.atom "rfail"] => some .failed
+  | .list [.atom "rscalar", s] => do pure (.scalar (← decStrS s))
+  | .list (.atom "rnodes" :: ns) => do
+    let l ← ns.mapM (fun s => match s with
+      | .list [.atom p, sv, xm] => do pure (← decNat p, ← decStrS sv, ← decStrS xm)
+      | _ => none)
+    pure (.nodes l)
+  | _ => none
+
+mutual
+partial def decFTree : Sexp → Option Cli.FTree
+  | .list [.atom "file", n, r] => do pure (.file (← decStrS n) (← decFileResult r))
+  | .list (.atom "dir" :: n :: entries) => do pure (.dir (← decStrS n) (← decFForest entries))
+  | _ => none
+partial def decFForest : List Sexp → Option Cli.FForest
+  | [] => some .nil
+  | t :: ts => do pure (.cons (← decFTree t) (← decFForest ts))
 end
 
 /-! ### output -/
